@@ -1,5 +1,6 @@
 """C10 - A Lark instance is a pure function of its input: reusable and thread-safe."""
 import ast
+import functools
 import inspect
 import json
 import os
@@ -40,8 +41,10 @@ def Z(n):
 THEOREMS = ['C10_coherent_inv', 'C10_history', 'C10_history_pure', 'C10_per_call_state_fresh',
             'C10_indenter_yields_agree', 'C10_lazy_init_safe', 'C10_callbacks_complete',
             'C10_lazy_init_race_old_order_refuted', 'C10_no_reset_refuted', 'C10_example', 'C10_example_threads',
-            'C10_other_instances', 'C10_construction_pure', 'C10_configuration_immutable', 'C10_example_process']
-GEN_DEPS = ['InstOrder', 'IndenterHoles']
+            'C10_other_instances', 'C10_construction_pure', 'C10_configuration_immutable', 'C10_example_process',
+            'C10_parse_paths_write_only_per_call_objects', 'C10_writable_cells_exact', 'C10_history_pure_heap',
+            'C10_lazy_cells_value_safe', 'C10_lazy_identity_race_refuted', 'C10_example_heap']
+GEN_DEPS = ['InstOrder', 'IndenterHoles', 'InstWrites']
 RULE = ('histories: random sequences (0-6 operations) over the public API {parse ok / failing in lexer, parser or Indenter, '
         'parse(start=...), parse(on_error=...), lex and lex(dont_ignore=True) and scan consumed partially or abandoned, '
         'parse_interactive abandoned, get_terminal, save to a BytesIO, another Lark instance created and used} on one instance '
@@ -56,7 +59,15 @@ RULE = ('histories: random sequences (0-6 operations) over the public API {parse
         'two parses of A another instance is constructed and used with every single-option deviation of a 25-entry matrix '
         '(ordered_sets, ambiguity, priority, lexer, parser, keep_all_tokens, maybe_placeholders, propagate_positions, '
         'tree_class, transformer, callbacks, flags, start, ...) on the same and on another grammar, plus random combinations; '
-        'A is then parsed 5 more times; first results also compared with a fresh process under the same PYTHONHASHSEED')
+        'A is then parsed 5 more times; first results also compared with a fresh process under the same PYTHONHASHSEED. '
+        'shaping-histories: the whole family {inlined _rule body: all-optional / mixed / star / plain / optional group} x {first, '
+        'middle, last, only child of its parent} x {one statement, repeated statements} x {lalr contextual/basic, earley '
+        'dynamic/basic} x maybe_placeholders (keep_all_tokens, propagate_positions, explicit ambiguity rotated): every text '
+        'parsed twice in a row, a seeded mix of parse / interactive session / abandoned session / scan, every text again; each '
+        'result compared with a fresh instance and every earlier result re-read after every later call. lazy-cell-schedules: every '
+        'lazily initialised attribute found by the translator, all interleavings of two threads (bounded for 2+1 calls and three '
+        'threads). shared-store-schedules: the lines of every function storing into an object the instance may hold are switch '
+        'points; six engine configurations x three pairs of same-shape texts, <= 2 pre-emptions')
 TRUSTED_BASE = [
     'thread switches happen only between source lines (the tracer-based scheduler of this harness has exactly that power); '
     'in the publish-last code every scheduling line performs one GIL-atomic load/store of a shared attribute plus look-ups '
@@ -68,9 +79,16 @@ TRUSTED_BASE = [
     '(e.g. a transformer object kept on self) is covered only by the object-graph snapshots and the configuration '
     'fingerprint of the harness; process-wide state: every statement inside a function of lark/*.py that stores into a class, '
     'module or function object or a module-level variable is listed and compared with a reviewed list of three',
-    'Inst/MiniLex.v models literals and backtrack-free character-class regexps only; LALR/Earley/CYK are abstract in the model '
-    '(a parser is an arbitrary consumer of the token stream); their per-call freshness is tied by the snapshots and by the '
-    'fresh-instance oracle',
+    'Inst/MiniLex.v models literals and backtrack-free character-class regexps only; LALR/Earley/CYK are consumers in the model '
+    'whose demand may read every cell of the instance that no parse path writes (C10_history_pure_heap)',
+    'translator/gen_instwrites.py: name-based over-approximation of the call graph from the parse entry points (method calls are '
+    'resolved by name over all lark classes, attribute loads of property names are calls, indirect calls reach every __call__, '
+    'nested function and loaded bound method, all dunder methods are roots) and a flow-sensitive may-alias analysis of each body '
+    '(roots self / parameter / call result); fail-closed on unknown statement or expression forms; aliasing across calls is not '
+    'tracked: what the reviewed tables of Inst/Writes.v assert (the target of a store through a parameter or a call result is an '
+    'object of the current call) and the list Writes.held_classes are checked on the implementation by the object-graph '
+    'snapshots (now including partial objects, closures and bound methods, i.e. the ParseTreeBuilder callback objects) and by '
+    'the held-classes stream; dynamic stores (setattr with a computed name, C extensions) are outside the analysis',
 ]
 ASSUMPTIONS = ['no user-supplied stateful callbacks or post-lexer other than lark.indenter.Indenter; two live generators of one '
                'Indenter object are never interleaved',
@@ -730,6 +748,15 @@ def children(o):
     if inspect.isfunction(o):
         out.append((('attr', '__defaults__'), o.__defaults__))
         out.append((('attr', '__kwdefaults__'), o.__kwdefaults__))
+        for i, c in enumerate(o.__closure__ or ()):        # callbacks built as closures (inplace_transformer, visit wrappers)
+            try:
+                out.append((('cell', i), c.cell_contents))
+            except ValueError:
+                pass
+    if isinstance(o, functools.partial):                   # partial(ChildFilterLALR, to_include, n), partial(Tree, name) ...
+        out.extend([(('attr', 'func'), o.func), (('attr', 'args'), o.args), (('attr', 'keywords'), o.keywords)])
+    if inspect.ismethod(o):                                # a bound method kept as a callback (EarleyRegexpMatcher.match)
+        out.append((('attr', '__self__'), o.__self__))
     return out
 
 
@@ -1682,11 +1709,47 @@ def stress_stream(ctx):
 
 
 # =====================================================================================================
+def held_instances():
+    """used instances of every configuration, of the other-instance matrix and of the shaping family (lazy cells forced)"""
+    import props.C10_writes as W
+    out = []
+    for cid in sorted(CONFIGS):
+        inst = make_instance(cid)
+        for kind in ('parse', 'lex', 'scan', 'inter'):
+            if kind in CONFIGS[cid][5]:
+                run_op(inst, [kind, GOOD_TEXT[CONFIGS[cid][2]], None if kind != 'inter' else 2])
+        out.append((cid, inst))
+    for aid in sorted(OO_A):
+        gid, aspec, texts = OO_A[aid]
+        a = oo_make(gid, aspec)
+        oo_parse(a, texts[0])
+        out.append(('oo:' + aid, a))
+    for cid, g, opts, texts in W.shape_cases()[::17]:
+        import lark
+        a = lark.Lark(g, **opts)
+        W.shape_op(a, 'parse', texts[0])
+        out.append(('shape:' + cid, a))
+    import lark
+    t = type('T', (lark.Transformer,), {'start': lambda self, ch: ('start', len(ch))})()
+    a = lark.Lark(G_FLAT, parser='lalr', transformer=t)
+    a.parse('ab 12')
+    out.append(('embedded-transformer', a))
+    return out
+
+
+def writes_tie(ctx):
+    import props.C10_writes as W
+    W.held_class_tie(ctx, held_instances())
+
+
 def correspond(ctx):
+    import props.C10_writes as W
     secs = {}
-    for name, fn in (('histories', history_stream), ('fresh-process', subprocess_reference),
+    for name, fn in (('histories', history_stream), ('shaping-histories', W.shaping_history_stream),
+                     ('fresh-process', subprocess_reference),
                      ('other-instances', other_options_stream), ('schedules', schedule_stream),
-                     ('stress', stress_stream)):
+                     ('lazy-cells', W.lazy_cell_stream), ('shared-stores', W.shared_store_stream),
+                     ('held-classes', writes_tie), ('stress', stress_stream)):
         t0 = time.time()
         fn(ctx)
         secs[name] = round(time.time() - t0, 1)
@@ -1709,6 +1772,12 @@ def replay(ctx, case):
         return json.loads(json.dumps(res)) != json.loads(json.dumps(fr))
     if kind == 'process':
         return False
+    if kind == 'shaping':
+        import props.C10_writes as W
+        return W.replay_shaping(w)
+    if kind == 'gschedule':
+        import props.C10_writes as W
+        return W.replay_gschedule(w)
     if kind == 'other-options':
         for _ in range(8):              # the order of an id-hashed set differs from run to run
             bad, how, before = oo_case(w['instance_A'], w['other_grammar'], w['other_options'], repeat=10)
